@@ -264,3 +264,80 @@ def len_dispatch(ctx, modules=('transform', 'earth', 'util', 'error_model')):
     ctx.ob('FORM-LEN', True, None, '%d functions scanned' % n, key='scanned')
     ctx.floor('FORM-LEN', n, 20, 'functions')
 
+
+def attr_bound(ctx, modules=None):
+    """ATTR-BOUND - every attribute a method reads on `self` / `cls` / its own class is bound
+    somewhere in the class (class body, a `self.x = ...` in any method, a method, a property)
+    or in a base class of the package.  The class-level counterpart of NAME-BOUND: a renamed
+    class constant (`DRN = 0` -> `DRE = 0`) leaves every `self.DRN` an AttributeError.  Classes
+    with a base outside the package, `__getattr__`, `__slots__` tricks or `setattr` are not
+    judged."""
+    ctx.rule('ATTR-BOUND', 'every attribute read on self / cls / the class itself is bound in the '
+             'class or in a base class of the package: no AttributeError')
+    repo = ctx.repo
+    n = 0
+    for mod in repo.modules.values():
+        short = mod.name.split('.')[-1]
+        if modules and short not in modules:
+            continue
+        if '.tests' in mod.name:
+            continue
+        for cname, ci in getattr(mod, 'classes', {}).items():
+            node = ci.node
+            # bases: only classes of the same module (or none / object)
+            chain, ok_bases = [node], True
+            todo = list(node.bases)
+            while todo:
+                b = todo.pop()
+                bn = b.id if isinstance(b, ast.Name) else None
+                if bn in ('object',):
+                    continue
+                if bn is not None and bn in mod.classes:
+                    chain.append(mod.classes[bn].node)
+                    todo.extend(mod.classes[bn].node.bases)
+                else:
+                    ok_bases = False
+            if not ok_bases:
+                continue
+            bound = set()
+            dynamic = False
+            for cn in chain:
+                for st in cn.body:
+                    if isinstance(st, (ast.FunctionDef, ast.AsyncFunctionDef, ast.ClassDef)):
+                        bound.add(st.name)
+                        if st.name in ('__getattr__', '__getattribute__'):
+                            dynamic = True
+                    elif isinstance(st, (ast.Assign, ast.AnnAssign, ast.AugAssign)):
+                        for t in (st.targets if isinstance(st, ast.Assign) else [st.target]):
+                            for x in ast.walk(t):
+                                if isinstance(x, ast.Name):
+                                    bound.add(x.id)
+                for x in ast.walk(cn):
+                    if isinstance(x, ast.Attribute) and isinstance(x.ctx, ast.Store) and \
+                            isinstance(x.value, ast.Name) and x.value.id in ('self', 'cls'):
+                        bound.add(x.attr)
+                    if isinstance(x, ast.Call) and isinstance(x.func, ast.Name) and \
+                            x.func.id in ('setattr', 'vars') or \
+                            (isinstance(x, ast.Attribute) and x.attr == '__dict__'):
+                        dynamic = True
+            if dynamic:
+                continue
+            n += 1
+            for x in ast.walk(node):
+                if isinstance(x, ast.Attribute) and isinstance(x.ctx, ast.Load) and \
+                        isinstance(x.value, ast.Name) and x.value.id in ('self', 'cls', cname) and \
+                        x.attr not in bound and not (x.attr.startswith('__') and
+                                                     x.attr.endswith('__')):
+                    f = None
+                    for fi in repo.all_functions():
+                        if fi.module is mod and any(y is x for y in ast.walk(fi.node)):
+                            f = fi
+                    ctx.ob('ATTR-BOUND', False, mod.relpath, "attribute '%s' is bound" % x.attr,
+                           f=f, node=x, key='%s.%s' % (cname, x.attr),
+                           why="%s reads `%s`, but no attribute '%s' is bound in the class %s (nor "
+                               'in a base class): AttributeError whenever this expression is '
+                               'evaluated' % (f.qualname if f else cname, norm_text(x), x.attr,
+                                              cname))
+    ctx.ob('ATTR-BOUND', True, None, '%d classes: every attribute read on self / cls is bound' % n,
+           key='scanned')
+
